@@ -8,6 +8,8 @@ TESTS = {
  "C11": ["tangelo/linq/tests/test_circuits.py", "tangelo/linq/tests/test_gates.py", "tangelo/linq/tests/test_translator_circuit.py", "tangelo/linq/tests/test_simulator.py"],
  "C16": ["tangelo/toolboxes/operators/tests"], "C18": ["tangelo/toolboxes/post_processing/tests", "tangelo/toolboxes/measurements/tests"],
  "C07": ["tangelo/toolboxes/ansatz_generator/tests"], "C08": ["tangelo/algorithms/variational/tests/test_vqe_solver.py", "tangelo/toolboxes/ansatz_generator/tests/test_fermionic_operators.py"],
+ "C19": ["tangelo/linq/tests/test_simulator.py", "tangelo/linq/tests/test_simulator_noisy.py", "tangelo/linq/tests/test_translator_circuit.py"],
+ "C13": ["tangelo/toolboxes/molecular_computation/tests/test_rdms.py", "tangelo/algorithms/classical/tests", "tangelo/algorithms/variational/tests/test_vqe_solver.py"],
  "C20": ["tangelo/algorithms/projective/tests", "tangelo/linq/helpers/circuits/tests", "tangelo/toolboxes/ansatz_generator/tests/test_ansatz_util.py"],
 }
 base = set(json.load(open("/root/.vp/BASELINE.json"))["stable_pass"])
